@@ -87,6 +87,20 @@ def impl(case: Case) -> str:
             return f"{hx(t)}|{fmt_date(tuple(periods.instant(t)))}"
         except Exception:
             return f"{hx(t)}|ERR"
+    if op == "ispell":
+        # order matters (memoised texts): the ISO WEEK-date spelling is parsed FIRST, then the instant is printed,
+        # parsed from its ISO date, printed, built from its tuple, printed, and the first one printed again
+        y, m, d = parse_date(f[2])
+        iso = dt.date(y, m, d).isocalendar()
+        try:
+            a = periods.instant(f"{iso[0]:04d}-W{iso[1]:02d}-{iso[2]}")
+            ta = str(a)
+            b = periods.instant(f"{y:04d}-{m:02d}-{d:02d}")
+            tb = str(b)
+            tc = str(Instant((y, m, d)))
+            return "|".join(hx(t) for t in (ta, tb, tc, str(a)))
+        except Exception:
+            return "ERR"
     if op == "istr":
         return hx(str(Instant(parse_date(f[2]))))
     raise ValueError(op)
@@ -124,6 +138,10 @@ def oracle(case: Case, out: str):
         a, b = out.split("|")
         if f[2] != f[3] and a == b:
             return ("print-collision", f"{f[2]} and {f[3]} both print as {unhx(a)!r}")
+    elif op == "ispell":
+        want = "%04d-%02d-%02d" % parse_date(f[2])
+        if out == "ERR" or any(unhx(t) != want for t in out.split("|")):
+            return ("instant-text", f"the instant {f[2]} parsed from its spellings prints as {[unhx(t) for t in out.split('|')] if out != 'ERR' else out}, not {want!r}")
     elif op == "irt":
         t, r = out.split("|")
         if r != f[2]:
@@ -246,6 +264,8 @@ def generate(rng: random.Random, tier: str):
         if rng.random() < 0.4:
             out.append(Case(line=f"txt disk {p}", tags=("disk", u)))
         out.append(Case(line=f"txt irt {fmt_date(s)}", tags=("irt",)))
+        if rng.random() < 0.5:
+            out.append(Case(line=f"txt ispell {fmt_date(s)}", tags=("ispell",)))
         # a neighbour of the same unit that differs in start or size
         if rng.random() < 0.5:
             q = _tok(u, s, rng.choice([n + 1, max(1, n - 1), 12, 1, n * 10, n + 10]))
